@@ -186,6 +186,12 @@ def field_chain(e):
         elif e.get("k") == "call" and e.get("op") == "[]":
             names.append("[]")
             e = unwrap(e["a"][0])
+        elif e.get("k") == "call" and e.get("op") in ("->", "*") and e.get("a"):
+            names.append("*")          # iterator / handle dereference
+            e = unwrap(e["a"][0])
+        elif e.get("k") == "call" and e.get("fn") in ("operator->", "operator*") and e.get("obj") is not None:
+            names.append("*")
+            e = unwrap(e["obj"])
         elif e.get("k") == "idx":
             names.append("[]")
             e = unwrap(e["b"])
